@@ -10,7 +10,7 @@ for p in sorted(glob.glob(os.path.join(ROOT, "seeded", "*", "meta.json"))):
     wi = m.get("detected_with_failing_input", [])
     first = ""
     for h in m.get("history", []):
-        if not h.get("detected_by_before_strengthening"):
+        if not (h.get("detected_by_before_strengthening") or h.get("detected_by_earlier")):
             first = "missed at first; check strengthened"
             break
     how = "—"
@@ -22,11 +22,13 @@ for p in sorted(glob.glob(os.path.join(ROOT, "seeded", "*", "meta.json"))):
         how = "VIOLATION … no-failing-input-found (broken pin or correspondence): " + ", ".join(det)
     else:
         how = "NOT detected by " + ", ".join(m.get("checks_run", {}).keys())
-    rows.append((m["id"], m["breaks_property"], "yes" if confirmed else "partly", how, first))
+    rows.append((m["id"], m["breaks_property"], ("yes" if confirmed else "partly") + " @" + m.get("repo_head", "pinned"), how, first))
 out = ["# Seeded changes — which checks report which change", "",
        "Each change was written by an independent sub-agent that saw only the property text and a scratch worktree;",
        "confirmed here in a scratch worktree (applies, builds, the 30 tests stay green, the demonstration fails with it and",
-       "passes without it), then the registered quick checks were run against /repo with the change applied and the change undone.", "",
+       "passes without it), then the registered quick checks were run against the tree with the change applied (git apply in /repo and",
+       "git checkout afterwards, or a scratch worktree named by VERIF_REPO). 'confirmed @<commit>' names the /repo head the change was last",
+       "confirmed and evaluated on (the fix: commits moved the head; four patches were rebased, the originals are kept as patch.pinned-commit.diff).", "",
        "| id | property | confirmed | reported by | note |", "|---|---|---|---|---|"]
 for r in rows:
     out.append("| %s | %s | %s | %s | %s |" % r)
